@@ -179,8 +179,7 @@ class MultiOperator(Operator):
         return self.operators[i]
 
     def __mul__(self, other):
-        self.append(other)
-        return self
+        return MultiOperator([self, other])
 
     def append(self, op):
         """add a new operator to the existing list"""
